@@ -31,6 +31,7 @@ type MutateContext interface {
 	runPreCommitActions() error
 	AddCommitAction(func())
 	setTx(tx *bbolt.Tx) MutateContext
+	saveActions() func()
 	IsSystemContext() bool
 	GetSystemContext() MutateContext
 	Context() context.Context
@@ -87,6 +88,16 @@ func (self *mutateContext) AddPreCommitAction(f func(MutateContext) error) {
 	self.preCommitActions = append(self.preCommitActions, f)
 }
 
+// saveActions returns a function which drops all pre-commit and commit actions added after this call
+func (self *mutateContext) saveActions() func() {
+	preCommitCount := len(self.preCommitActions)
+	commitCount := len(self.commitActions)
+	return func() {
+		self.preCommitActions = self.preCommitActions[:preCommitCount]
+		self.commitActions = self.commitActions[:commitCount]
+	}
+}
+
 func (self *mutateContext) runPreCommitActions() error {
 	for _, action := range self.preCommitActions {
 		if err := action(self); err != nil {
@@ -132,6 +143,10 @@ func (self *systemMutateContext) AddPreCommitAction(f func(MutateContext) error)
 
 func (self *systemMutateContext) AddCommitAction(f func()) {
 	self.wrapped.AddCommitAction(f)
+}
+
+func (self *systemMutateContext) saveActions() func() {
+	return self.wrapped.saveActions()
 }
 
 func (self *systemMutateContext) runPreCommitActions() error {
